@@ -139,19 +139,21 @@ Fixpoint first_some {A B} (f : A -> option B) (l : list A) : option B :=
   match l with [] => None | a :: r => match f a with Some b => Some b | None => first_some f r end end.
 
 Definition delete_section (s : str) (d : data) : data := set_sections (remove_first s (sections d)) d.
-Definition section_insertion_index (s : str) (secs : list str) : nat :=
-  match index_of s all_sections with
+(** section_insertion_index, generic in the reference order [A] (= t2data_sections) *)
+Definition sec_insertion_index (A : list str) (s : str) (secs : list str) : nat :=
+  match index_of s A with
   | None => length secs
   | Some O => O
   | Some li =>
-      match first_some (fun k => option_map S (index_of k secs)) (rev (firstn li all_sections)) with
+      match first_some (fun k => option_map S (index_of k secs)) (rev (firstn li A)) with
       | Some i => i
-      | None => match first_some (fun k => index_of k secs) (skipn li all_sections) with
+      | None => match first_some (fun k => index_of k secs) (skipn li A) with
                 | Some i => i
                 | None => length secs
                 end
       end
   end.
+Definition section_insertion_index (s : str) (secs : list str) : nat := sec_insertion_index all_sections s secs.
 Definition ins_sec (s : str) (secs : list str) : list str :=
   if smem s secs then secs else insert_at (section_insertion_index s secs) s secs.
 Definition insert_section (s : str) (d : data) : data := set_sections (ins_sec s (sections d)) d.
@@ -334,10 +336,14 @@ Definition convert_history_to_short (d : data) : data :=
   set_hist_gen [] (set_hist_conn [] (set_hist_block [] (set_short_output so d))).
 
 (** * convert_to_TOUGH2 / convert_to_AUTOUGH2 / type setter *)
+(** [self.simulator = ''; self.delete_section('SIMUL')]; the translator reports whether these two statements
+    come before (the source as found) or after the call of convert_AUTOUGH2_parameters_to_TOUGH2, whose
+    MOP(23) test reads the simulator string *)
+Definition clear_simulator (d : data) : data := delete_section (s2l simul_section) (set_simulator [] d).
 Definition convert_to_TOUGH2 (mp : bool) (d : data) : res data :=
   let d0 := if mp then set_filename (s2l mp_filename) d else d in
-  let d2 := delete_section (s2l simul_section) (set_simulator [] d0) in
-  do d3 <- params_to_tough2 mp d2;
+  do d3 <- (if t2_clears_simulator_first then params_to_tough2 mp (clear_simulator d0)
+            else do p <- params_to_tough2 mp d0; Ok (clear_simulator p));
   convert_short_to_history (fst (gens_to_tough2 d3)).
 
 Definition suffix (p s : str) : bool := prefix (rev p) (rev s).
